@@ -88,7 +88,7 @@ class C07(vlib.HistoryProp):
     def assumptions(self):
         return ["the harness prints an unresolved waitthread result as r=ptr (the model can express it as well): since f3056f7 none is ever observed",
                 "injected integral millisecond clock (hook H1), constant during an Execute; time scale 1 (the two time bases of the timer coincide: C06)",
-                "threads are straight-line programs of println / wait / waittill / waittill_any / waittill_timeout / waittill_any_timeout / notify / endon / delete / spawn / thread / waitthread / end; event names a, b, c (never \"delete\"/\"remove\", which the Listener destructor notifies)",
+                "threads are straight-line programs of println / wait / waittill / waittill_any / waittill_timeout / waittill_any_timeout / notify / endon / delete / spawn / thread / waitthread (also applied to a group of fresh Listeners) / end; event names a, b, c (never \"delete\"/\"remove\", which the Listener destructor notifies)",
                 "script objects are plain Listeners held in level.o0..o2; a thread numbers itself from the counter level.ntid when it starts",
                 "the order in which con::set enumerates the NAMES of one listener (UnregisterAll, CancelWaitingAll) is modelled as c, b, a, \"\"; it is observable only through the resume order of the waitthread callers of waiters destroyed by ONE delete under DIFFERENT names: such programs are generated only with C07_DEFECTS=order"]
 
@@ -156,7 +156,14 @@ class C07(vlib.HistoryProp):
                 body = self.prog(c, rng.choice([1, 2, 3]), depth + 1, True, rng.choice(["waiter", "mix", "driver"]))
                 if rng.random() < 0.6:
                     body += ["end%d" % rng.randrange(1, 9)]
-                p += [c.mark(), "wt["] + body + ["]", c.mark(), "r"]
+                if rng.random() < 0.25 and c.left > 0:
+                    c.left -= 1
+                    body2 = [c.mark()] + rng.choice([[], ["w%d" % rng.choice([0, 1, 2]), c.mark()], ["t%d%s" % (o, "a"), c.mark()]])
+                    plain = [t for t in body if t[0] in "pw" or t.startswith("end")]
+                    parts = [plain, body2] if rng.random() < 0.5 else [body2, plain]
+                    p += [c.mark(), "wg["] + parts[0] + ["|"] + parts[1] + ["]", c.mark()]
+                else:
+                    p += [c.mark(), "wt["] + body + ["]", c.mark(), "r"]
             elif k == 9:
                 p += ["end%d" % rng.randrange(1, 9) if rng.random() < 0.5 else "end"]
             else:
@@ -297,6 +304,32 @@ class C07(vlib.HistoryProp):
                                 cases.append(Case("t%d" % k, "", ops, "timeouts"))
                                 k += 1
 
+    GROUP_CALLEE = ["p%d", "p%d w1 p%d", "p%d w2 p%d", "p%d t0a p%d", "p%d end5", "p%d w0 p%d"]
+
+    def group_waitthread(self, tier, cases):
+        """waitthread applied to a group of 2-3 receivers; every callee independently ends at once /
+        waits on a timer / waits for a notify and then ends: the caller, queued for wake-up by a callee
+        that ended at once, registers again on the next callee (StartedWaitFor must take it off the timer)"""
+        k = len(cases)
+        sizes = (2, 3) if tier != "quick" else (2, 3)
+        opts = self.GROUP_CALLEE if tier != "quick" else self.GROUP_CALLEE[:4]
+        for n in sizes:
+            for combo in itertools.product(range(len(opts)), repeat=n):
+                if tier == "quick" and n == 3 and len(set(combo)) == 1 and combo[0] != 0:
+                    continue
+                bodies, m = [], 10
+                for c in combo:
+                    t = opts[c]
+                    cnt = t.count("%d")
+                    bodies.append(t % tuple(range(m, m + cnt)))
+                    m += 10
+                for tail in ("p90", "p90 w1 p91", "p90 wg[ p92 | p93 w1 p94 ] p95"):
+                    if tier == "quick" and n == 3 and tail != "p90":
+                        continue
+                    ops = ["S s0 p1 wg[ " + " | ".join(bodies) + " ] " + tail, "X", "T 1", "X", "S n0a p80", "T 1", "X", "T 2", "X", "X"]
+                    cases.append(Case("g%d" % k, "", ops, "group-waitthread"))
+                    k += 1
+
     def endon_random(self, rng, cases, n):
         k = len(cases)
         for _ in range(n):
@@ -361,6 +394,7 @@ class C07(vlib.HistoryProp):
         self.endon_names(tier, cases)
         self.waittill_names(tier, cases)
         self.timeouts(tier, cases)
+        self.group_waitthread(tier, cases)
         self.endon_random(rng, cases, 600 if tier == "quick" else 20000)
         self.finding_templates(rng, cases, 40 if tier == "quick" else 400)
         k = len(cases)
@@ -402,7 +436,8 @@ def check(res, tier, seed):
                         "x two frame schedules; the endon family: 2-3 threads holding endon registrations under DIFFERENT names (a, b, c; two names in one thread; endon + waittill of one name; "
                         "a second object) x every order of 2-3 notifies, the same for waittill under different names, and random endon/notify mixes; the timeout family: waittill_timeout / waittill_any_timeout "
                         "with the notify before/at/after the deadline, the thread blocking again in waittill / waittill_any / a timed waittill / waitthread / wait while the old "
-                        "deadline passes, a second timed waiter, endon / delete while a timeout is pending; timed waittills also in the random programs (30% of the waittills); templates aimed at the recorded finding and at waitthread callees that are killed (regression family of the fixed f3056f7); seeded random histories of 1-4 host-started threads, up to 6 script threads, "
+                        "deadline passes, a second timed waiter, endon / delete while a timeout is pending; timed waittills also in the random programs (30% of the waittills); the group family: waitthread applied to a group of 2-3 receivers, every callee "
+                        "independently ending at once / waiting 1-2 ms / waiting for a notify, followed by nothing / a wait / another group waitthread (also a quarter of the random waitthreads); templates aimed at the recorded finding and at waitthread callees that are killed (regression family of the fixed f3056f7); seeded random histories of 1-4 host-started threads, up to 6 script threads, "
                         "2-3 objects, names a/b/c, nested thread/waitthread bodies to depth 3, waits {0,1,1,2,3} ms, frames with and "
                         "without clock advance; markers around every blocking instruction; every candidate is first run on model and specification: "
                         "histories on which model and specification differ by a recorded finding get the origin finding-<signature>; non-trivial = one host operation made >= 2 threads print. ")
